@@ -21,13 +21,13 @@ TECHNIQUE = "static analysis: interval facts from guards vs. derived container d
 
 def run(prog, rep, tier, snap):
     rep.rule("R19.1", "parser guards inside container domains", 10)
-    bitint.r19_1(prog, rep)
+    rep.call(bitint.r19_1, prog, rep)
     rep.rule("R05.3", "nominal typing of the bitint typedef family across call boundaries (R19.2)", 30)
-    bitint.r05_3(prog, rep)
+    rep.call(bitint.r05_3, prog, rep)
     rep.rule("R19.3", "iterator returns an element only with a non-zero cursor; iteration sites test the cursor", 30)
-    bitint.r19_3(prog, rep)
+    rep.call(bitint.r19_3, prog, rep)
     rep.rule("R19.4", "negatives reachable from a fresh cursor", 4)
-    bitint.r19_4(prog, rep)
+    rep.call(bitint.r19_4, prog, rep)
     rep.rule("R19.5", "representation tag discipline in the assign functions", 8)
-    bitint.r19_5(prog, rep)
+    rep.call(bitint.r19_5, prog, rep)
 READY = True
